@@ -265,29 +265,37 @@ def apply_damage(data, meta, dmg):
 ENTRY_RE = re.compile(rb"\d{10} \d{5} [nf]( \r| \n|\r\n)")
 
 
-def table_wellformed(data, start, need_keyword=True):
-    """Independent syntax check of a classic xref section starting at `start` (ISO 32000-1 7.5.4).  With
-    need_keyword=False the section may start at a subsection header (a startxref offset pointing into the table)."""
+def table_entries(data, start, need_keyword=True):
+    """Independent reading of a classic xref section starting at `start` (ISO 32000-1 7.5.4): the set of object numbers
+    it lists as in use, or None when it is not well-formed.  With need_keyword=False the section may start at a
+    subsection header (a startxref offset pointing into the table)."""
     m = re.compile(rb"xref[ \t]*(\r\n|\r|\n)").match(data, start)
     if not m:
         if need_keyword:
-            return False
+            return None
         m = re.compile(rb"[ \t\r\n]*").match(data, start)
     pos = m.end()
     nsub = 0
+    inuse = set()
     while True:
         if data.startswith(b"trailer", pos):
-            return nsub > 0
+            return inuse if nsub > 0 else None
         h = re.compile(rb"(\d+) (\d+)[ \t]*(\r\n|\r|\n)").match(data, pos)
         if not h:
-            return False
+            return None
         pos = h.end()
-        for _ in range(int(h.group(2))):
+        for i in range(int(h.group(2))):
             e = ENTRY_RE.match(data, pos)
             if not e:
-                return False
+                return None
+            if data[pos + 17:pos + 18] == b"n":
+                inuse.add(int(h.group(1)) + i)
             pos = e.end()
         nsub += 1
+
+
+def table_wellformed(data, start, need_keyword=True):
+    return table_entries(data, start, need_keyword) is not None
 
 
 @st.composite
@@ -338,20 +346,31 @@ def run_damage(case):
         v = dmg["value"]
         if v.isdigit() and int(v) == meta["startxref"]:
             return Outcome(classes + ["damage-noop"], False)
-    lying = dmg["kind"] != "startxref" and table_wellformed(bad, meta["xref_spans"][0][0])
-    if dmg["kind"] == "startxref" and dmg["value"].isdigit():
+    # A table that still parses but lies is not "no valid xref" for pdfminer, so __init__ takes no body scan:
+    #  - it lists every object but with wrong offsets: getobj must then find the objects by scanning (repaired in /repo,
+    #    see KNOWN_FINDINGS.txt "xref-wrong-offset", so these cases are checked like any other);
+    #  - it omits objects (cut exactly at a subsection boundary, or startxref pointing at a later subsection header):
+    #    nothing tells pdfminer that the table is partial -- known finding xref-partial-table.
+    listed = None
+    if dmg["kind"] != "startxref":
+        listed = table_entries(bad, meta["xref_spans"][0][0])
+    elif dmg["value"].isdigit():
         v = int(dmg["value"])
         (a, b) = meta["xref_spans"][0]
         # an offset that points at a later subsection header of the same table: what follows parses as a (partial) table
-        nxt = re.compile(rb"[^\r\n]*(\r\n|\r|\n)").match(bad, v)
-        lying = a < v < b and (table_wellformed(bad, v, need_keyword=False) or
-                               (nxt is not None and table_wellformed(bad, nxt.end(), need_keyword=False)))
-    if lying:
-        # the table still parses but lies (wrong offsets, or cut exactly at a subsection boundary): pdfminer takes
-        # no body scan then -- known finding xref-wrong-offset
+        if a < v < b:
+            listed = table_entries(bad, v, need_keyword=False)
+            nxt = re.compile(rb"[^\r\n]*(\r\n|\r|\n)").match(bad, v)
+            if listed is None and nxt is not None:
+                listed = table_entries(bad, nxt.end(), need_keyword=False)
+    if listed is not None:
         classes.append("table-wellformed-but-wrong")
-        if "xref-wrong-offset" in runner.ACTIVE_KNOWN:
-            return Outcome(classes, known="xref-wrong-offset")
+        if set(objs) - listed:
+            classes.append("table-omits-objects")
+            if "xref-partial-table" in runner.ACTIVE_KNOWN:
+                return Outcome(classes, known="xref-partial-table")
+        else:
+            classes.append("table-wrong-offsets")
 
     def body():
         want_text = extract_text(io.BytesIO(data))
